@@ -131,7 +131,7 @@ prop("C06", "exploration",
      "frame, leftover gas differs from the run without Aspects by exactly the sum of reported burns. Non-trivial = some "
      "Aspect burned gas and the surrounding frame's gas was observed against it. Each case is also re-checked on variants in which a top-level call is given exactly the gas its pre join point burns, one more, and exactly what the whole frame consumes.",
      [{"test": "TestC06", "quick": {"checks": 600, "shards": 4, "timeout": 900},
-       "thorough": {"checks": 1500, "shards": 16, "timeout": 7200}}])
+       "thorough": {"checks": 1000, "shards": 16, "timeout": 7200}}])
 
 prop("C10", "exploration",
      "cases = scripted call trees (Byzantium..Cancun, all call kinds, creation, re-entrancy, failing frames, 1-3 "
@@ -170,7 +170,7 @@ prop("C11", "exploration",
      "child indices == indices accepted under the node. Conflicting registrations may be refused or aliased, but whatever "
      "is accepted must satisfy I1-I5. Non-trivial = two accepted keys share a slot and a change was accepted in it. Offsets include values that alias a valid one under 8- or 64-bit narrowing; index keys include the empty key and a single zero byte.",
      [{"test": "TestC11", "quick": {"checks": 6000, "shards": 4, "timeout": 600},
-       "thorough": {"checks": 15000, "shards": 16, "timeout": 7200}},
+       "thorough": {"checks": 10000, "shards": 16, "timeout": 7200}},
       {"test": "TestC11Exhaustive", "quick": {"checks": 1, "shards": 1, "timeout": 600},
        "thorough": {"checks": 1, "shards": 1, "timeout": 3000}}])
 
@@ -276,7 +276,7 @@ prop("C20", "exploration",
      "observed (reported in the evidence). Instructions beyond 2e5 reads are cut off and reported. Non-trivial = a length "
      ">= 2^20 / a large payload, or an instruction that touched >= 2 state entries. Further families: hostile length words in 0x66 payloads with little more than the fee forwarded; histories of one flat-fee journal instruction executed 64..20000 times on new locations (growth law over window means); one JUMP repeated inside init code of up to 1 MiB (bound on the window mean); BLOCKHASH probes with every host block-hash lookup observed (only the 256 most recent blocks may be asked for).",
      [{"test": "TestC20", "quick": {"checks": 1500, "shards": 4, "timeout": 900},
-       "thorough": {"checks": 3750, "shards": 16, "timeout": 7200}}])
+       "thorough": {"checks": 2500, "shards": 16, "timeout": 7200}}])
 
 prop("C16", "exploration",
      "cases = scripted scenarios (Byzantium..Cancun, 1-3 contracts, 2-8 journal blocks each that register several members "
@@ -300,9 +300,9 @@ prop("C16", "exploration",
      "key, value) must be identical in all repetitions. Non-trivial there = an unrelated execution ran in between and T "
      "had >= 2 frames.",
      [{"test": "TestC16", "quick": {"checks": 350, "shards": 8, "timeout": 600},
-       "thorough": {"checks": 900, "shards": 16, "timeout": 7200}},
+       "thorough": {"checks": 500, "shards": 16, "timeout": 7200}},
       {"test": "TestC16Tx", "quick": {"checks": 600, "shards": 8, "timeout": 600},
-       "thorough": {"checks": 3000, "shards": 16, "timeout": 7200}}])
+       "thorough": {"checks": 2000, "shards": 16, "timeout": 7200}}])
 
 prop("C17", "exploration",
      "cases = 3-10 scenarios per case (always the pair 'London without / with extra EIP-3855 executing PUSH0', plus generated "
